@@ -136,7 +136,8 @@ class Context:
                 from .pyutil import unroll_literal_dispatch_inplace, loops_to_comprehensions_inplace, merge_nested_ifs_inplace
                 unroll_literal_dispatch_inplace(mod)
                 if os.environ.get("VERIF_NO_EXTENDLOOP") != "1":
-                    from .pyutil import extend_comprehension_to_loop_inplace
+                    from .pyutil import extend_comprehension_to_loop_inplace, list_iadd_to_append_inplace
+                    self.cache["iaddappend:" + rel] = list_iadd_to_append_inplace(mod)
                     self.cache["extendloop:" + rel] = extend_comprehension_to_loop_inplace(mod)
                 if os.environ.get("VERIF_NO_ANYLOOP") != "1":
                     from .pyutil import any_guard_to_loops_inplace
